@@ -183,8 +183,72 @@ def _guarded(fn, a, kw, limit):
         signal.signal(signal.SIGALRM, old)
 
 
-def uri(dirpath, f, p, slash=True):
-    fn = os.path.join(dirpath, f + ".cool")
+# ------------------------------------------------------------------ where the files of a history live
+# A history directory may carry a LAYOUT: the two files in different directories, a working directory that is
+# neither file's directory, relative / dotted addressing, decoy files of the same base names elsewhere.
+_LAYOUTS = {}     # dirpath -> {"A": abs path, "B": abs path, "cwd": abs path, "addr": "abs"|"rel"|"dot"}
+_REV = {}         # realpath -> file letter
+
+
+def set_layout(dirpath, lay):
+    _LAYOUTS[dirpath] = lay
+    for f in FILES:
+        _REV[os.path.realpath(lay[f])] = f
+
+
+def clear_layout(dirpath):
+    lay = _LAYOUTS.pop(dirpath, None)
+    if lay:
+        for f in FILES:
+            _REV.pop(os.path.realpath(lay[f]), None)
+
+
+def fpath(dirpath, f):
+    lay = _LAYOUTS.get(dirpath)
+    return lay[f] if lay else os.path.join(dirpath, f + ".cool")
+
+
+def faddr(dirpath, f, amode=None):
+    """the file as it is named to cooler: absolute, relative to the working directory, or relative with a '.' segment"""
+    lay = _LAYOUTS.get(dirpath)
+    path = fpath(dirpath, f)
+    mode = amode or (lay["addr"] if lay else "abs")
+    if not lay or mode == "abs":
+        return path
+    rel = os.path.relpath(path, lay["cwd"])
+    if mode == "dot":
+        rel = rel.replace("/", "/./", 1) if "/" in rel else "./" + rel
+        if not rel.startswith("."):
+            rel = "./" + rel
+    return rel
+
+
+def letter_of(path, strict=False):
+    L = _REV.get(os.path.realpath(path))
+    if L or strict:
+        return L
+    return "?" if _REV else os.path.basename(path)[:1]
+
+
+def ext_letter(linkfile, filename):
+    """which file an external link names, resolved the way HDF5 does (absolute; else relative to the directory of
+    the file holding the link; else relative to the working directory) - independent of the code under test"""
+    if os.path.isabs(filename):
+        cands = [filename]
+    else:
+        cands = [os.path.join(os.path.dirname(os.path.abspath(linkfile)), filename), os.path.join(os.getcwd(), filename)]
+    for c in cands:
+        if os.path.exists(c):
+            return letter_of(c)
+    for c in cands:
+        L = letter_of(c, strict=True)
+        if L:
+            return L
+    return os.path.basename(filename)[:1] if not _REV else "?"
+
+
+def uri(dirpath, f, p, slash=True, amode=None):
+    fn = faddr(dirpath, f, amode)
     cs = comps(p)
     if not cs:
         return fn if slash else fn + "::/"
@@ -196,15 +260,15 @@ def apply_op(dirpath, op):
     import cooler
     from cooler import fileops
     if op["op"] == "create":
-        u = uri(dirpath, op["f"], op["p"], op.get("s1", True))
+        u = uri(dirpath, op["f"], op["p"], op.get("s1", True), op.get("a1"))
         return guarded(cooler.create_cooler, u, bins_df(), pixels_df(op["k"]), mode=op["mode"])[0]
     if op["op"] == "setattr":
         def _set():
-            with h5py.File(os.path.join(dirpath, op["f"] + ".cool"), "r+") as h:
+            with h5py.File(fpath(dirpath, op["f"]), "r+") as h:
                 h[pstr(comps(op["p"]))].attrs[op["key"]] = op["val"]
         return guarded(_set)[0]
-    su = uri(dirpath, op["sf"], op["sp"], op.get("s1", True))
-    du = uri(dirpath, op["df"], op["dp"], op.get("s2", True))
+    su = uri(dirpath, op["sf"], op["sp"], op.get("s1", True), op.get("a1"))
+    du = uri(dirpath, op["df"], op["dp"], op.get("s2", True), op.get("a2"))
     ow = bool(op.get("ow", False))
     if op.get("via") == "cli":
         from click.testing import CliRunner
@@ -260,11 +324,11 @@ def _attrs(o):
 
 
 def _ident(o):
-    return (os.path.basename(o.file.filename)[:1], int(h5py.h5o.get_info(o.id).addr))
+    return (letter_of(o.file.filename), int(h5py.h5o.get_info(o.id).addr))
 
 
 def raw_dump(dirpath, f, depth):
-    return raw_dump_file(os.path.join(dirpath, f + ".cool"), depth)
+    return raw_dump_file(fpath(dirpath, f), depth)
 
 
 def raw_dump_file(fn, depth):
@@ -284,7 +348,7 @@ def raw_dump_file(fn, depth):
                 if isinstance(l, h5py.SoftLink):
                     out.append([p, ["S", comps(l.path)]])
                 elif isinstance(l, h5py.ExternalLink):
-                    out.append([p, ["X", os.path.basename(l.filename)[:1], comps(l.path)]])
+                    out.append([p, ["X", ext_letter(fn, l.filename), comps(l.path)]])
                 else:
                     o = g[k]
                     if isinstance(o, h5py.Group):
@@ -365,7 +429,7 @@ class RawWorld:
         self.dir = dirpath
         self.h = {}
         for f in FILES:
-            fn = os.path.join(dirpath, f + ".cool")
+            fn = fpath(dirpath, f)
             if os.path.exists(fn) and h5py.is_hdf5(fn):
                 self.h[f] = h5py.File(fn, "r")
 
@@ -406,7 +470,7 @@ class RawWorld:
                 todo = comps(l.path) + todo
             elif isinstance(l, h5py.ExternalLink):
                 self.last_sym = True
-                f2 = os.path.basename(l.filename)[:1]
+                f2 = ext_letter(fpath(self.dir, cur_f), l.filename)
                 if f2 not in self.h:
                     return "missing", None, None, slots
                 cur_f, cur = f2, self.h[f2]["/"]
@@ -465,7 +529,7 @@ class RawWorld:
                     if isinstance(l, h5py.SoftLink):
                         st, f2, o, _ = self.walk(cf, l.path)
                     else:
-                        st, f2, o, _ = self.walk(os.path.basename(l.filename)[:1], l.path)
+                        st, f2, o, _ = self.walk(ext_letter(fpath(self.dir, cf), l.filename), l.path)
                     if st != "ok":
                         flags["dangling"] = True
                         continue
